@@ -76,6 +76,8 @@ pub trait Group:
     fn sum(a: &Self, b: &Self) -> Self;
     /// bytes of a compressed handle
     fn c_bytes(c: &<Self as Compressable>::Compressed) -> [u8; 32];
+    /// a compressed handle from raw bytes (not necessarily decodable)
+    fn c_from(b: [u8; 32]) -> <Self as Compressable>::Compressed;
 }
 
 impl Group for RistrettoPoint {
@@ -162,6 +164,10 @@ impl Group for RistrettoPoint {
 
     fn c_bytes(c: &<Self as Compressable>::Compressed) -> [u8; 32] {
         *c.as_fixed_bytes()
+    }
+
+    fn c_from(b: [u8; 32]) -> <Self as Compressable>::Compressed {
+        <<Self as Compressable>::Compressed as FixedBytesRepr>::from_fixed_bytes(b)
     }
 }
 
@@ -263,5 +269,9 @@ impl Group for FreePoint {
 
     fn c_bytes(c: &<Self as Compressable>::Compressed) -> [u8; 32] {
         *c.as_fixed_bytes()
+    }
+
+    fn c_from(b: [u8; 32]) -> <Self as Compressable>::Compressed {
+        <<Self as Compressable>::Compressed as FixedBytesRepr>::from_fixed_bytes(b)
     }
 }
